@@ -13,6 +13,13 @@ CLAIMED = {
     },
 }
 
+CLAIMED["C01"] = {
+    "text": "Coq theorems over the quantizer generated from symmetric.py / qbytes.py on every run: (a) for any number type, rank and shape every element is quantized and dequantized with the scale of its own axis index; (b) in exact arithmetic clamp-round-divide is a nearest-grid projection that saturates; (c) in IEEE arithmetic (Flocq; float32/float16/bfloat16) qint8 codes are integers of [-128,127] stored without wrap, results are finite and within an explicit rounding slack of a closest grid point, including division overflow. All 2^16 float16 and bfloat16 inputs x 3 qtypes x scales are compared bit for bit between the Flocq model and torch.",
+    "note": "Trusted: Coq kernel + vm_compute, Flocq 4.1 as IEEE semantics, Reals axioms (sig_forall_dec, sig_not_dec, functional_extensionality_dep, classic); translators; coq/Lib vocabulary (broadcasting, casts) tied to torch by correspondence only. float8 nearest-point and requantization stability are decided by the audit (exact rational arithmetic) only, not yet by a theorem.",
+    "design": "6/C01",
+    "technique": "Coq/Flocq proof over source-generated model + reflexivity tie + exhaustive 16-bit vm_compute correspondence",
+}
+
 NOT_YET = {}
 
 
